@@ -167,6 +167,8 @@ where
             }
             match peek_token {
                 Some(peek_token) => match peek_token {
+                    // An unterminated attribute, do not scan past the end of the input for ever
+                    Token::EOF => return Ok(false),
                     Token::AttributeOpen => in_attribute = true,
                     Token::DocComment(..) => (),
                     Token::RBracket => in_attribute = false,
